@@ -171,6 +171,19 @@ add('C09', 'model_checking',
     'DESIGN.md 3 C09', 'Reference model ref/wire.py on nested dicts. Key soundness: models, aliasing and cache presence are everything the library reads.',
     'explicit-state breadth-first search over operation histories with history replay on fresh real objects and a reference model')
 
+add('C12', 'model_checking',
+    'Explicit-state BFS over SelectParams histories (4 chains, an unknown name, the empty name; depth 3 / 4; each node replayed from '
+    'the import-time state of the two parameter globals): in every state both globals name the last valid selection, prefixes and '
+    'limits equal a hand-written chain table, a script->address->text->address->script battery over 4 templates gives the '
+    'prescribed class/version/prefix/payload, and every other chain\'s addresses are refused. Plus complete families: conversions '
+    'under every (previous chain, chain) pair, P2PKH converter variants (PUSHDATA1/2/4, bare compressed/uncompressed/hybrid '
+    'pubkey, strict modes), a refusal catalogue (cross-chain, witness versions 1..16, v0 lengths 2..40, every version byte, '
+    'payload lengths 0..40 and 64), every printable string of length <=2 on 3 chains, every single-character '
+    'substitution/deletion/insertion of 12 valid addresses; outcome = reference decision and never another exception type.',
+    'DESIGN.md 3 C12', 'Oracles ref/base58.py + ref/bech32.py + chain table. State space is small by nature (selection is memoryless); '
+    'one known finding (bare 65-byte pubkey truncated to 64 bytes) is listed in known_findings.json.',
+    'explicit-state breadth-first search over configuration histories plus exhaustive single-fault enumeration against reference codecs')
+
 NOT_YET = 'check not yet built in this revision of /verif (planned, see DESIGN.md section 3)'
 
 
